@@ -261,10 +261,16 @@ def programs(h: Harness):
                 ("SGE", SGE(g, synth.make_decider(kind, d, shared, g), gene_length=64)),
                 ("DynamicSGE", DSGE(g, d)), ("Stack", Stack(g, gene_length=512))]
         for name, rp in reps:
-            for _ in range(2):
+            for attempt in range(4):
                 st, geno = safe(lambda: rp.create_genotype(shared))
                 if st != "ok":
                     continue
+                if attempt >= 2 and name in ("GE", "Stack"):
+                    # a genome most of whose genes sit at the TOP (or bottom) of the documented gene range
+                    import sys as _sys
+                    edge = [_sys.maxsize, 0, _sys.maxsize - 1][(attempt + gi) % 3]
+                    geno = type(geno)(dna=[edge if (j + gi) % 3 else g_ for j, g_ in enumerate(geno.dna)])
+                    h.count(f"{name}:boundary-genome")
                 st, p = safe(lambda: rp.genotype_to_phenotype(geno))
                 degenerate = any(g.distanceToTerminal[s] >= 1000000 for s in g.all_nodes)
                 if st == "err" and p.startswith("foreign") and not (degenerate and name == "Stack"):
